@@ -8,39 +8,9 @@ TB = ("Trusted base: Coq 8.16.1 kernel (+ its vm_compute machine for closed witn
       "hand-written Gallina model of the anchored Rust code (modelled, not verified) tied by the differential correspondence run on every check "
       "(extraction with ExtrOcamlBasic only, no Extract Constant; OCaml driver; Rust harness built from /repo's working tree with --cfg selen_verif); tools/gen_consts.py constant translator. ")
 CHECKS = {
- "C12": dict(text="Integer half proved in Coq for all domains/bounds/sequences: try_set_min/max leave exactly the values on the right side of the bound, fail iff none is left, report a change iff the domain shrank (Properties/C12.v, 9 theorems incl. the bridge to the verified SparseSet model); tied to views.rs Context::try_set_min/max through hook H1 by an exhaustive small-scope + random differential and an independent python judge. Float half: see level_note.",
-             note=TB + "PARTIAL: the float half (FloatInterval primitives, float branches of try_set_min/max) is not yet part of this check in the committed state.",
-             tech="Coq proofs about the bound setters over abstract domains + refinement bridge to the sparse set + differential through hook H1", ref="6/C12"),
- "C01": dict(text="Coq theorem solutions_satisfy (+ entry-point corollaries): every store yielded by the depth-first engine in Enumerate or Minimize mode is fully assigned, inside the declared domains and satisfies the documented meaning of every propagator. " + 'The theorems are generic in the propagator list: they hold for every list whose members satisfy the four local contracts (contracting, sound, checking, frame), which Properties/C05.v proves for the modelled kinds (add, sub, leq, lt, geq, gt, eq, sum, int_lin_eq/le/ne and their reified forms), for every well-formed starting store and every propagation scheduler; termination of the engine is proved (the recursion fuel never runs out). ' + "Tie: solution SEQUENCES of the extracted model and of selen::search::search compared exactly on random and structured models for all entry points, each assignment judged against the brute-force solution set computed from the Coq sat.",
-             note=TB + 'SCOPE: propagator-level models (Vars/Propagators) over the modelled propagator kinds; the Model-level API/lowering (C10), validation, the root LP step and the optimisation fast path are NOT covered by this check in the committed state (LP step and fast path are switched off through hook H5 in the correspondence runs; the LP-on family is judged by the oracle only). Known classes: lin_zero_coeffs (D11), neq_noop (D3). ',
-             tech="Coq proof: propagation-fixpoint invariant + checking contract at leaves, generic over contract-satisfying propagators; sequence-exact differential", ref="6/C01"),
- "C02": dict(text="Coq theorems solve_complete, solve_nosol_sound, solve_total: the engine returns a solution iff one exists, a no-solution verdict only for unsatisfiable models, and always terminates. " + 'The theorems are generic in the propagator list: they hold for every list whose members satisfy the four local contracts (contracting, sound, checking, frame), which Properties/C05.v proves for the modelled kinds (add, sub, leq, lt, geq, gt, eq, sum, int_lin_eq/le/ne and their reified forms), for every well-formed starting store and every propagation scheduler; termination of the engine is proved (the recursion fuel never runs out). ' + "Tie: first-solution runs compared exactly with the extracted model and judged against the brute-force solution set.",
-             note=TB + 'SCOPE: propagator-level models (Vars/Propagators) over the modelled propagator kinds; the Model-level API/lowering (C10), validation, the root LP step and the optimisation fast path are NOT covered by this check in the committed state (LP step and fast path are switched off through hook H5 in the correspondence runs; the LP-on family is judged by the oracle only). Known classes: lin_zero_coeffs (D11), neq_noop (D3). ' + "Model validation (core/validation.rs) is not modelled yet.",
-             tech="Coq proof of search completeness/soundness from the sound+contracting contracts and the branch partition lemma; differential", ref="6/C02"),
- "C03": dict(text="Coq theorems enumerate_exact (NoDup, soundness, completeness), enumerate_count, enumerate_terminates, branch_partition: run to exhaustion the engine yields exactly the solution set, each solution once, for every model size and every backtracking history of the recursive engine. " + 'The theorems are generic in the propagator list: they hold for every list whose members satisfy the four local contracts (contracting, sound, checking, frame), which Properties/C05.v proves for the modelled kinds (add, sub, leq, lt, geq, gt, eq, sum, int_lin_eq/le/ne and their reified forms), for every well-formed starting store and every propagation scheduler; termination of the engine is proved (the recursion fuel never runs out). ' + "Tie: full ordered solution sequences compared exactly; sets judged against brute force.",
-             note=TB + 'SCOPE: propagator-level models (Vars/Propagators) over the modelled propagator kinds; the Model-level API/lowering (C10), validation, the root LP step and the optimisation fast path are NOT covered by this check in the committed state (LP step and fast path are switched off through hook H5 in the correspondence runs; the LP-on family is judged by the oracle only). Known classes: lin_zero_coeffs (D11), neq_noop (D3). ' + "The engine is modelled as the recursive depth-first function that threads the mode state in visiting order; its equivalence with the explicit stack of Engine::next is established by the ordered-sequence differential (and, for limit checks, by C15's iteration-count differential), not by a proof.",
-             tech="Coq mutual induction over engine runs (soundness, NoDup, completeness, termination); sequence-exact differential", ref="6/C03"),
- "C04": dict(text="Coq theorems minimize_optimal, maximize_optimal, minimize_ok_iff_sat, iterate_strictly_improves, maximize_is_minimize_opp: branch and bound as in search/mode.rs returns a feasible assignment whose objective no solution beats, Ok iff satisfiable, iterating variants strictly improve and end at the optimum. " + 'The theorems are generic in the propagator list: they hold for every list whose members satisfy the four local contracts (contracting, sound, checking, frame), which Properties/C05.v proves for the modelled kinds (add, sub, leq, lt, geq, gt, eq, sum, int_lin_eq/le/ne and their reified forms), for every well-formed starting store and every propagation scheduler; termination of the engine is proved (the recursion fuel never runs out). ' + "Tie: improving sequences compared exactly for objectives that are decision variables, result variables and negated/offset/scaled views.",
-             note=TB + 'SCOPE: propagator-level models (Vars/Propagators) over the modelled propagator kinds; the Model-level API/lowering (C10), validation, the root LP step and the optimisation fast path are NOT covered by this check in the committed state (LP step and fast path are switched off through hook H5 in the correspondence runs; the LP-on family is judged by the oracle only). Known classes: lin_zero_coeffs (D11), neq_noop (D3). ' + "PARTIAL with respect to the property text: 'whether or not the root LP relaxation or the fast path is eligible' — those two mechanisms are outside the model (finding D10 concerns them).",
-             tech="Coq proof of the branch-and-bound invariant (domination) over engine runs; sequence-exact differential", ref="6/C04"),
- "C05": dict(text="Coq: the four local contracts (only shrinks and reports every change; never removes a supported value hence fails only when nothing is left; fixed => succeeds iff holds; reads/writes only its variables) for every modelled propagator kind with all parameters universally quantified and all domains (holes, negatives, singletons), lifted to propagation to fixpoint under every scheduler (propagate_shrinks, propagate_keeps_solutions, propagate_fixpoint, fixed_fixpoint_checks, propagate_terminates). Tie: exhaustive domain tuples over a small universe per kind + random models, exact against the extracted model and judged against brute-force support sets from the Coq sat.",
-             note=TB + "Kinds covered in the committed state: add, sub, leq, lt, geq, gt, eq, sum, int_lin_eq/le/ne, reified int_lin_*; other kinds are not claimed yet. Known classes with refutation lemmas: lin_zero_coeffs (D11), neq_noop (D3). IntLinEq rounding (D1) was repaired in /repo (ef03fb9).",
-             tech="Coq proofs of per-propagator contracts + generic fixpoint/termination theorems; exhaustive small-scope differential", ref="6/C05"),
- "C14": dict(text="Coq theorems order_independent (any two schedulers x any permutation of the constraint list give the same solution set), verdict_independent, optimum_independent, implied_constraint_neutral, solution_set_is_semantic — unbounded in model size. " + 'The theorems are generic in the propagator list: they hold for every list whose members satisfy the four local contracts (contracting, sound, checking, frame), which Properties/C05.v proves for the modelled kinds (add, sub, leq, lt, geq, gt, eq, sum, int_lin_eq/le/ne and their reified forms), for every well-formed starting store and every propagation scheduler; termination of the engine is proved (the recursion fuel never runs out). ' + "Tie: runs under the seeded agenda perturbation of hook H3 (the model's scheduler implements the same function, so perturbed sequences are compared exactly), permuted and implied-constraint variants judged against brute force.",
-             note=TB + 'SCOPE: propagator-level models (Vars/Propagators) over the modelled propagator kinds; the Model-level API/lowering (C10), validation, the root LP step and the optimisation fast path are NOT covered by this check in the committed state (LP step and fast path are switched off through hook H5 in the correspondence runs; the LP-on family is judged by the oracle only). Known classes: lin_zero_coeffs (D11), neq_noop (D3). ' + "Variable-declaration order: covered as 'the solution set is a function of the constraint meanings only' (solution_set_is_semantic); renaming of variables inside propagator descriptions is not a separate theorem.",
-             tech="Coq corollaries of the exactness theorem for arbitrary schedulers and permutations; H3-perturbed exact differential", ref="6/C14"),
- "C15": dict(text="Coq theorems for EVERY interruption point (the clock is an arbitrary oracle on the index of the limit check; interval and memory limit arbitrary): limits_prefix (what a limited run yielded is a prefix of the unlimited iteration; an exhausted limited run is the unlimited run), enumerate_lim_genuine, solve_lim_correct and minimize_lim_correct (Ok => correct / truly optimal; NoSolution => really unsatisfiable; otherwise Timeout or MemoryLimit; an interrupted search never returns its last solution as Ok), buildmem_all_entries, no_limit_agrees. Tie under hook H4 (check-interval override + scripted clock): verdict class, assignment and the NUMBER of limit checks performed are compared exactly with the extracted model on models built through the public Model API, incl. deep stacks where selen's own memory estimate exceeds 1 MB.",
-             note=TB + "PARTIAL: the real clock and allocator are not modelled (oracle on check index; elapsed() monotone assumed); panic-freedom under limits is observed by the harness (catch_unwind), not proved. Vocabulary of the tie: int/intset variables + lin_eq/lin_le/lin_ne. D9 was repaired in /repo (e5d51be).",
-             tech="Coq simulation proof (limited vs unlimited DFS) quantified over all clock oracles + exact differential under scripted limit injection", ref="6/C15"),
- "C19": dict(text="Coq theorems for any number of variables and any finite domains: bitset_alldiff_sound and hybrid_alldiff_sound (a result only removes values, every supported value survives, inconsistency => no all-different assignment; Hall-set pigeonhole hall_sound), engines_fixed_agree / sparse_fixed_agree (on fixed families every engine's verdict = values pairwise distinct), engines_never_contradict and sparse_inconsistent_sound (an inconsistency verdict of ANY engine refutes every solution, for every hash iteration order), mk_alldiff_good (the AllDiff propagator satisfies the four C05 contracts). Tie: exhaustive <=4 variables over subsets of 5 values on all three public engine structs, random to 8 variables incl. >128-wide domains and op histories, exact against the extracted model (sparse engine: among the model's outputs over all iteration orders) and judged against brute-force support sets.",
-             note=TB + "Known classes (refutation lemmas in Properties/C19.v): sparse_matching (D13: the sparse-set engine removes supported values), engines_disagree (on unsolvable families only), sparse_hash_order (verdict depends on HashMap iteration order), sparse_value_range_panic (1u128 << value for values <0 or >=128). The sparse engine is not on the solver's path. Not proved: that the BFS fuel of the sparse model always suffices (fuel exhaustion is a distinct outcome, never observed).",
-             tech="Coq soundness proofs of assigned-value elimination and Hall sets (pigeonhole) for the bit-set and hybrid engines + differential on the public engine structs", ref="6/C19"),
- "C09": dict(text="Exact-rational LP model with certificate checkers proved sound in Coq for all dimensions (weak duality: check_opt => feasible and optimal; Farkas: check_infeasible => no feasible point; certified lp_solve; uniqueness of the optimal value, which is what warm = cold means; verified tolerant feasibility check). The real solver's status/objective/point are judged on every case by those verified, extracted functions (status vs exact status, objective within tolerance of the exact optimum, returned point through feasible_tol, reported objective = c.x, warm vs cold).",
-             note=TB + "PARTIAL: the f64/LU arithmetic of lpsolver/* is not modelled (the model is an exact simplex, not a mirror of the pivoting), so the tie is a judged differential, not an operational correspondence; numerical error cannot be exhibited by the model. Three known-finding classes (phase1, warmstart, ratio_test) are listed in known_findings.txt.",
-             tech="Coq proofs of LP certificate soundness (weak duality, Farkas) + extracted verified judge applied to the implementation's outputs", ref="6/C09"),
- "C13": dict(text="Coq theorems by induction on view terms, all integer scales/offsets (incl. 0 and negatives), all domains: the view's min/max are the least/greatest image of the domain; try_set_min/max on the view keeps exactly the values whose image satisfies the bound, fails iff none, reports a change iff the domain shrank; smart constructors (times sign dispatch) and the derived postings (sub, lt, gt, ge) denote what they say. Tied to views.rs through hook H1: exhaustive shapes to depth 2 (quick) / 3 (thorough) + random, judged by an independent python oracle.",
-             note=TB + "Integer views only (float views are part of the C12-float/C06 work). The TimesPos rounding defect D6 was repaired in /repo (fix commit 1749b6d) and the model reflects the repaired code.",
-             tech="Coq induction over view terms (exact bound transformation) + differential through hook H1", ref="6/C13"),
+ "C12": dict(text="Integer half proved in Coq for all domains/bounds/sequences (Properties/C12.v, 9 theorems incl. the bridge to the verified SparseSet model): try_set_min/max leave exactly the values on the right side of the bound, fail iff none is left, report a change iff the domain shrank. Float half over a bit-exact Flocq binary64 model (Properties/C12F.v, 16 theorems): FloatInterval primitives stay inside the interval for ALL finite inputs, next/prev monotone w.r.t. their argument, int bounds on float variables and float bounds on int variables exact, no inverted interval, and under the decidable magnitude hypothesis Magn (2^-60 <= step <= 2^60, |values| <= 2^50*step) no widening, event iff changed, loss bounded by step*(1+2^-50)+|v|*2^-50, for every sequence; outside Magn the statements are refuted by closed witnesses. Tie: hook H1 differentials, bit-for-bit on f64 (40k cases quick / 1.2M thorough), judged with exact rational arithmetic.",
+             note=TB + "Float theorems depend on the standard-library axioms Flocq needs (ClassicalDedekindReals.sig_forall_dec, sig_not_dec, FunctionalExtensionality.functional_extensionality_dep, Classical_Prop.classic), as printed by Print Assumptions and coqchk. PARTIAL for floats: monotonicity of next/prev in x (x<=y => next x <= next y) is not proved; the loss bound holds under Magn only. Known classes: outside_magn, int_bound_tol_invert, next_neg_zero.",
+             tech="Coq proofs over abstract integer domains + bit-exact Flocq binary64 model of FloatInterval/try_set_min/max; H1 differential compared bit-for-bit", ref="6/C12"),
  "C11": dict(text="Refinement theorem (Coq, all histories, all universes): every SparseSet operation sequence incl. stack-disciplined save/restore agrees with a plain mathematical set on every observation; tied to sparse_set.rs by an exhaustive small-scope + seeded random differential of the extracted model against the real SparseSet.",
              note=TB + "Known class D7 (restore after an element-adding union_with) is excluded by hypothesis and refuted by witness; i32/u32 are unbounded Z/nat in the model.",
              tech="Coq refinement proof (sparse set -> mathematical set, induction over op lists) + extracted-model/implementation differential", ref="6/C11"),
